@@ -281,7 +281,7 @@ def run(ctx):
     ctx.proof_stage()
     binary = vlib.build_harness("h_kf")
     g = ctx.gen("kfc")
-    N = ctx.n(110, 3000)
+    N = ctx.n(110, 1000)
     cases = []   # (harness line, [kfc single lines], meta)
     corpus = vlib.VERIF / "corpus" / "C01" / "cases.txt"
     if corpus.exists():
